@@ -57,4 +57,59 @@ def execDevAll (sh : Shared) (d : Device) : List (String × List Cmd) → Except
     | .error e => .error e
     | .ok d' => execDevAll sh d' ps
 
+/-! ### Equivalence modulo what a header element means (the oracle's equivalence)
+
+`hdr` is the canonical XML of everything `rulesPair.Equal` compares besides the three lists; the
+planner compares it as text.  What the rulebase MEANS is coarser: an element that is absent
+means the same as the element with PAN-OS's default content.  `equiv` (text) implies `equivSem`
+(`equivBy_of_equiv`), so the theorems, which give `equiv`, also give `equivSem`; the oracle judges
+the real requests with `equivSem`, so a planner that pairs an absent `<rule-type>` with
+`interzone` is caught, one that re-creates a rule to spell out a default is not blamed. -/
+
+/-- Elements that mean the same as their absence. -/
+def hdrDefaults : List String :=
+  ["<rule-type>universal</rule-type>", "<disabled>no</disabled>", "<log-start>no</log-start>",
+   "<log-end>yes</log-end>", "<negate-source>no</negate-source>",
+   "<negate-destination>no</negate-destination>"]
+
+def hdrSem (h : String) : String := hdrDefaults.foldl (fun s d => s.replace d "") h
+
+def ruleEquivBy (f : String → String) (dv : Vsys) (dr : Rule) (tv : Vsys) (tr : Rule) : Bool :=
+  f dr.hdr == f tr.hdr &&
+    sameSet (addrContent dv dr.src) (addrContent tv tr.src) &&
+    sameSet (addrContent dv dr.dst) (addrContent tv tr.dst) &&
+    sameSet (srvContent dv dr.srv) (srvContent tv tr.srv)
+
+def rulesEquivBy (f : String → String) (dv tv : Vsys) : List Rule → List Rule → Bool
+  | [], [] => true
+  | d :: ds, t :: ts => ruleEquivBy f dv d tv t && rulesEquivBy f dv tv ds ts
+  | _, _ => false
+
+def equivBy (f : String → String) (dev tgt : Vsys) : Bool := rulesEquivBy f dev tgt dev.rules tgt.rules
+
+/-- The device vsys means what the target vsys means. -/
+def equivSem (dev tgt : Vsys) : Bool := equivBy hdrSem dev tgt
+
+theorem rulesEquivBy_of (f : String → String) (dv tv : Vsys) : ∀ (ds ts : List Rule),
+    rulesEquiv dv tv ds ts = true → rulesEquivBy f dv tv ds ts = true := by
+  intro ds
+  induction ds with
+  | nil => intro ts h; cases ts <;> simp_all [rulesEquiv, rulesEquivBy]
+  | cons d ds ih =>
+    intro ts h
+    cases ts with
+    | nil => simp [rulesEquiv] at h
+    | cons t ts =>
+      simp only [rulesEquiv, Bool.and_eq_true] at h
+      simp only [rulesEquivBy, Bool.and_eq_true]
+      refine ⟨?_, ih ts h.2⟩
+      have h1 := h.1
+      simp only [ruleEquiv, Bool.and_eq_true, beq_iff_eq] at h1
+      simp only [ruleEquivBy, Bool.and_eq_true, beq_iff_eq]
+      exact ⟨⟨⟨by rw [h1.1.1.1], h1.1.1.2⟩, h1.1.2⟩, h1.2⟩
+
+/-- Equal header text is equal meaning. -/
+theorem equivBy_of_equiv (f : String → String) (dev tgt : Vsys) (h : equiv dev tgt = true) :
+    equivBy f dev tgt = true := rulesEquivBy_of f dev tgt _ _ h
+
 end NA.PanOs
